@@ -30,6 +30,8 @@ Round 6: (b') a described field is listed under the attribute it reads and write
 removes no slot; builder step order also from a table of step names.
 Round 7: slot names assigned instead of accumulated in the builder's loop (loop_overwrites);
 enumerate-indexed hook calls.
+Round 8: field.init completes the keyword dict for its own field only; class accessors return the
+builder's own lists, never an entry of the user's __bisturi__ dict.
 """
 import ast
 
